@@ -731,6 +731,10 @@ const LEAVES: &[(&str, bool)] = &[
     ("c > d + e ~ f g{h:i}", false),
     ("c:not(d, e)::before{f:g}", false),
     ("c[d=\"e f\"]{g:h}", false),
+    // identifiers that need an escape in the output (digit-leading class / id, escape followed by a hex digit)
+    (".\\31 0{g:h}", false),
+    (".\\32 col, #\\33 d{g:h}", false),
+    ("$n:2;.#{$n}ab{g:h}", false),
     ("@media x{c{d:e}}", false),
     ("@media screen and (min-width:0.5px),print{c{d:e}}", false),
     ("@media x{}", false),
